@@ -41,7 +41,8 @@ def pre_sync(V, mode="a", name="h"):
     V.assume(z3.And(blen(bz(h.fields["h2"])) < 65536, blen(bz(h.fields["b0"])) < 2 ** 32))
     V.assume(ch.wf(F, bof))
     V.assume(ch.P[ch.n] == blen(F))
-    V.assume(U.idx_inv(h, F, ch, ch.n))
+    V.assume(U.idx_inv(h, F, ch, ch.n, last=False))
+    V.assume(U.last_ok(h))     # put does not maintain _last; the invariant only needs it to be a listed key (or None)
     return cell, h, F, ch, bof
 
 
@@ -215,3 +216,160 @@ def _map_blocks(V):
         post_indexed(V, h, F, ch, bof)
         V.ensure("frame/file-unchanged", bz(cell.fields["content"]) == F)
         V.ensure("frame/headers-unchanged", I.and_(*[I.eq(before[f], h.fields[f]) for f in ("h1", "h2", "b0")]))
+
+
+# =========================================================================================== backend / Collection
+from contracts.ukv import BACKEND, BASE
+from pyvc.filemodel import s_encode, b_decode, b_is_utf8
+
+COLL = "molli.storage.collection:Collection"
+
+
+def session_state(V, pending, bufsize_kind="sym"):
+    """a UkvCollectionBackend inside a writing() session: handle open for append and Sync, _keys = decode(dom toc) + queued keys"""
+    I, st = V.I, V.st
+    cell, h, F, ch, bof = pre_sync(V, "a", name="h")
+    b, _, lock, items = U.mk_backend(V, cell, pending=pending, with_handle=False, readonly=False)
+    b.fields["_ukvfile"] = h
+    b.fields["_state"] = "writing"
+    lock.fields["held"] = "write"
+    t = U.toc_of(h)
+    k = z3.Const("k!ss", BytesS)
+    s = z3.Const("s!ss", z3.StringSort())
+    V.assume(z3.ForAll([k], z3.Implies(t.has[k], b_is_utf8(k))))
+    queued = lambda sz: z3.Or(*[sz == kv[0].z for kv in items]) if items else z3.BoolVal(False)
+    S = b.fields["_keys"].has
+    V.assume(z3.ForAll([s], S[s] == z3.Or(t.has[s_encode(s)], queued(s))))
+    # queued writes are ones that will succeed: new, pairwise distinct keys of legal size
+    for n, (qk, qv) in enumerate(items):
+        V.assume(z3.And(z3.Not(t.has[s_encode(qk.z)]), blen(s_encode(qk.z)) < 256, blen(qv.z) < 2 ** 32))
+        for qk2, _ in items[:n]:
+            V.assume(qk.z != qk2.z)
+    if bufsize_kind == "default":
+        b.fields["_bufsize"] = 131072
+    V.assume(to_z3(b.fields["_usedmem"], "int") >= 0)
+    return cell, h, F, ch, bof, b, items
+
+
+@P.unit(f"{BASE}.get", name="backend.get[every-listed-key-is-readable]",
+        functions=[f"{BASE}.get", f"{BACKEND}._read", f"{BASE}.flush", f"{BACKEND}._write", f"{BASE}.keys"])
+def _backend_get(V):
+    I, st = V.I, V.st
+    pending = V.choose([0, 1, 2], "pending")
+    cell, h, F, ch, bof, b, items = session_state(V, pending)
+    key = V.sym("key", "str")
+    listed = I.contains(I.call(I.getattr_(b, "keys"), [], {}), key)
+    V.assume(listed)
+    V.witness(lambda ev: {"op": "session-get", "pending": pending, "key_is_queued": [bool(ev(key.z == kv[0].z)) for kv in items],
+                          "n": ev(ch.n), "signature": "listed-key-unreadable"})
+    V.cover()
+    out = V.method(b, "get", [key], qual=f"{BASE}.get")
+    V.ensure("post/listed-key-is-readable", z3.BoolVal(out.returned))
+    if out.returned:
+        kb = s_encode(key.z)
+        expected = ch.Vv[ch.idx(kb)]
+        for qk, qv in reversed(items):
+            expected = z3.If(key.z == qk.z, qv.z, expected)
+        V.ensure("post/returns-the-value-put", out.value.z == expected)
+
+
+@P.unit(f"{BASE}.put", name="backend.put", functions=[f"{BASE}.put", f"{BASE}.flush", f"{BACKEND}._write", f"{BASE}.used_memory"])
+def _backend_put(V):
+    I, st = V.I, V.st
+    pending = V.choose([0, 1], "pending")
+    ro = V.choose([False, True], "readonly")
+    cell, h, F, ch, bof, b, items = session_state(V, pending)
+    b.fields["_readonly"] = ro
+    key, value = V.sym("key", "str"), V.sym("value", "bytes")
+    V.assume(z3.And(z3.Not(U.toc_of(h).has[s_encode(key.z)]), blen(s_encode(key.z)) < 256, blen(value.z) < 2 ** 32,
+                    *[key.z != kv[0].z for kv in items]))
+    keys0 = b.fields["_keys"].has
+    used0 = to_z3(b.fields["_usedmem"], "int")
+    bufsize = to_z3(b.fields["_bufsize"], "int")
+    q0 = list(b.fields["_write_queue"].fields["items"])
+    V.witness(lambda ev: {"op": "backend-put", "pending": pending, "readonly": ro, "bufsize": ev(bufsize), "used": ev(used0),
+                          "signature": "backend-put"})
+    V.cover()
+    out = V.method(b, "put", [key, value], qual=f"{BASE}.put")
+    q1 = list(b.fields["_write_queue"].fields["items"])
+    if ro:
+        V.ensure("post-exc/readonly-raises-and-changes-nothing",
+                 z3.BoolVal(out.raised(I, "OSError") and q1 == q0 and b.fields["_keys"].has is keys0))
+        return
+    V.ensure("post/no-exception", z3.BoolVal(out.returned))
+    s = st.fresh("s", z3.StringSort())
+    V.ensure("post/key-listed", b.fields["_keys"].has[s] == z3.Or(keys0[s], s == key.z))
+    newused = used0 + z3.Length(key.z) + blen(value.z)
+    over = newused > bufsize
+    flushed = len(q1) == 0
+    V.ensure("post/flush-iff-over-bufsize", z3.BoolVal(flushed) == over if True else True)
+    if flushed:
+        t = U.toc_of(h)
+        V.ensure("post/flushed:all-queued-writes-on-file", z3.And(t.has[s_encode(key.z)], *[t.has[s_encode(kv[0].z)] for kv in items]))
+        V.ensure("post/flushed:usedmem-reset", to_z3(b.fields["_usedmem"], "int") == 0)
+        g = V.method(h, "get", [SV(s_encode(key.z), "bytes")])
+        V.ensure("post/flushed:value-on-file", z3.BoolVal(g.returned) if not g.returned else g.value.z == value.z)
+    else:
+        V.ensure("post/queued:in-order", z3.BoolVal(q1[:len(q0)] == q0 and len(q1) == len(q0) + 1 and q1[-1][0] is key and q1[-1][1] is value))
+        V.ensure("post/queued:usedmem", to_z3(b.fields["_usedmem"], "int") == newused)
+
+
+@P.unit(f"{BACKEND}.update_keys", name="backend.update_keys")
+def _update_keys(V):
+    I, st = V.I, V.st
+    cell, h, F, ch, bof, b, items = session_state(V, 0)
+    # arbitrary (possibly stale) advertised key set before the refresh
+    b.fields["_keys"] = SymSet(st.fresh("stale_keys", z3.ArraySort(z3.StringSort(), z3.BoolSort())), "str")
+    st.ghost["comp_rules"] = {(f"{BACKEND}.update_keys", 0): U.install_update_keys_rule(I)}
+    V.witness(lambda ev: {"op": "update_keys", "n": ev(ch.n), "signature": "stale-key-listing"})
+    V.cover()
+    out = V.method(b, "update_keys", [], qual=f"{BACKEND}.update_keys")
+    V.ensure("post/no-exception-on-utf8-keys", z3.BoolVal(out.returned))
+    if out.returned:
+        s = st.fresh("s", z3.StringSort())
+        ks = b.fields["_keys"]
+        V.ensure("post/listing-is-exactly-the-keys-on-file", z3.BoolVal(isinstance(ks, SymSet)) if not isinstance(ks, SymSet)
+                 else ks.has[s] == U.toc_of(h).has[s_encode(s)])
+
+
+@P.unit(f"{COLL}.__setitem__", name="Collection.__setitem__/__getitem__",
+        functions=[f"{COLL}.__setitem__", f"{COLL}.__getitem__", f"{COLL}.keys", f"{COLL}.__contains__"])
+def _collection_items(V):
+    I, st = V.I, V.st
+    cell, h, F, ch, bof, b, items = session_state(V, 0)
+    b.fields["_bufsize"] = V.choose([-1, 0, "sym"], "bufsize")
+    if b.fields["_bufsize"] == "sym":
+        b.fields["_bufsize"] = V.sym("bufsize", "int")
+    enc = z3.Function("value_encoder", U.z3.DeclareSort("Val"), BytesS) if False else None
+    # encoder / decoder: uninterpreted functions recorded in the trace
+    calls = []
+
+    def encoder(I_, a, k):
+        calls.append(("enc", a[0]))
+        return V.enc_out
+    def decoder(I_, a, k):
+        calls.append(("dec", a[0]))
+        return Opaque("obj:decoded", (len(calls),))
+    V.enc_out = V.sym("encoded", "bytes")
+    V.assume(blen(V.enc_out.z) < 2 ** 32)
+    c = Obj(V.cls(COLL), {"_path": b.fields["_path"], "_backend": b, "_value_encoder": Builtin("enc", encoder),
+                          "_value_decoder": Builtin("dec", decoder), "_encoding": "utf8"}, tag="coll")
+    key = V.sym("key", "str")
+    value = Opaque("obj:value")
+    V.assume(z3.And(z3.Not(U.toc_of(h).has[s_encode(key.z)]), blen(s_encode(key.z)) < 256))
+    bs = b.fields["_bufsize"]
+    V.witness(lambda ev: {"op": "collection-set-get", "bufsize": ev(bs), "used": ev(b.fields["_usedmem"]), "n": ev(ch.n),
+                          "signature": "listed-key-unreadable"})
+    V.cover()
+    out = V.method(c, "__setitem__", [key, value], qual=f"{COLL}.__setitem__")
+    V.ensure("post/setitem-returns", z3.BoolVal(out.returned))
+    V.ensure("post/setitem-encodes-the-value-once", z3.BoolVal(calls == [("enc", value)]))
+    V.ensure("post/key-listed-afterwards", I.contains(I.call(I.getattr_(c, "keys"), [], {}), key))
+    V.ensure("post/contains-agrees", I.truth(I.call(I.getattr_(c, "__contains__"), [key], {})))
+    del calls[:]
+    g = V.method(c, "__getitem__", [key])
+    V.ensure("post/getitem-readable-inside-the-session", z3.BoolVal(g.returned))
+    if g.returned:
+        V.ensure("post/getitem-decodes-exactly-the-stored-bytes",
+                 z3.BoolVal(len(calls) == 1 and calls[0][0] == "dec" and isinstance(calls[0][1], SV)) if not (len(calls) == 1 and isinstance(calls[0][1], SV))
+                 else calls[0][1].z == V.enc_out.z)
